@@ -51,7 +51,7 @@ func DefaultConfig() *Config {
 var nonMonetary = []string{
 	"v_", "purged_", "w_", "es__", "g_", "propActive", "propPassed", "propFailed", "propFinalized", "propFinalizeFailed",
 	"propVotes_", "d_", "etht_", "ethfailed_", "ethsuccess_", "keeper_", "contracts_", "ri_", "rwaddr_", "rwz_", "rwcum_",
-	"st__t_", "st__e_", "propFunds_i_", "delegRwz_total_rewards", "btct_", "extBidConv", "bidConv", "bidOffer",
+	"st__t_", "st__e_", "propFunds_i_", "delegRwz_total_rewards", "btct_", "extBidConv", "extBidOffer_INACTIVE_",
 }
 
 func parseAmount(v []byte) (*big.Int, bool) {
@@ -214,6 +214,31 @@ func Decode(s hist.State, cfg *Config) *Ledger {
 				owner = rest[i+1:]
 			}
 			add(Entry{Key: k, Class: "delegrw-pending", Owner: owner, Cur: "OLT", Amt: a, System: true, Own: true})
+		case strings.HasPrefix(k, "extBidOffer_ACTIVE_"):
+			// the active offer of a bid conversation: a bid offer (type 1) whose
+			// amount is locked (status 1) is escrow debited from the bidder
+			var o struct {
+				OfferType int `json:"offerType"`
+				Amount    struct {
+					Currency string `json:"currency"`
+					Value    string `json:"value"`
+				} `json:"amount"`
+				AmountStatus int `json:"amountStatus"`
+			}
+			if err := json.Unmarshal(v, &o); err != nil {
+				l.Bad = append(l.Bad, k)
+				continue
+			}
+			a, ok := new(big.Int).SetString(o.Amount.Value, 10)
+			if !ok {
+				l.Bad = append(l.Bad, k)
+				continue
+			}
+			if o.OfferType == 1 && o.AmountStatus == 1 {
+				add(Entry{Key: k, Class: "bid-escrow", Cur: o.Amount.Currency, Amt: a, System: true})
+			} else if a.Sign() < 0 {
+				l.Negative = append(l.Negative, Entry{Key: k, Class: "bid-offer", Amt: a})
+			}
 		case strings.HasPrefix(k, "propFunds_t_"):
 			a, ok := parseAmount(v)
 			if !ok {
